@@ -602,6 +602,37 @@ impl Monitor {
                     );
                 }
             }
+            // ... also inside the scheduler: the core's view of every task of another job (state,
+            // ready-queue membership) is the same before and after the cancel
+            if let Some(pre) = pre {
+                let in_queue = |p: &KeyParts, t: TaskId| {
+                    p.core.queues.iter().any(|q| {
+                        q.queue.iter().any(|(_, ids)| ids.contains(&t)) || q.prefill.as_ref().is_some_and(|(_, ids)| ids.contains(&t))
+                    })
+                };
+                for t in &pre.core.tasks {
+                    if t.id.job_id().as_num() == *job {
+                        continue;
+                    }
+                    let after = post.core.tasks.iter().find(|x| x.id == t.id);
+                    let same_state = after.is_some_and(|a| a.state == t.state);
+                    let q_pre = in_queue(pre, t.id);
+                    let q_post = in_queue(post, t.id);
+                    if !same_state || q_pre != q_post {
+                        self.v(
+                            Prop::C08,
+                            "other-job-affected",
+                            if q_pre && !q_post { "dropped-from-ready-queue" } else { "scheduler-state-changed" },
+                            format!(
+                                "cancel of job {job} changed the scheduler's view of task {} of another job: state {:?} -> {:?}, in a ready queue {q_pre} -> {q_post}",
+                                t.id,
+                                t.state,
+                                after.map(|a| &a.state)
+                            ),
+                        );
+                    }
+                }
+            }
             // snapshot consistency: nothing of N left anywhere in the core
             for t in n {
                 if let Some(place) = find_in_core(post, *t) {
@@ -1124,7 +1155,7 @@ impl Monitor {
             let mut should_fail = false;
             if limit == "never" {
                 should_fail = true;
-            } else if reason.is_failure() {
+            } else if crate::common::loss_is_failure(&reason) {
                 let m = self.s.tasks.get_mut(&t).unwrap();
                 m.crash_ref += 1;
                 let c = m.crash_ref;
@@ -1844,6 +1875,32 @@ impl Monitor {
         }
     }
 
+    /// Workers that provide, for at least one variant of the request, every resource in the
+    /// amount asked (`all`: more than nothing) and live long enough for its time request.
+    fn oracle_capable_workers(sys: &System, post: &KeyParts, rq_id: u32) -> Vec<u32> {
+        let table = sys.server.request_table();
+        let Some(variants) = table.get(rq_id as usize) else { return Vec::new() };
+        let now_ms = sys.server.offset().as_millis() as u64;
+        post.core
+            .workers
+            .iter()
+            .filter(|w| {
+                variants.iter().any(|rq| {
+                    let res_ok = rq.entries.iter().all(|(rid, amount, _)| {
+                        let has = w.resources.get(*rid as usize).copied().unwrap_or(0);
+                        if *amount == u64::MAX { has > 0 } else { *amount <= has }
+                    });
+                    let time_ok = match w.termination_ms {
+                        None => true,
+                        Some(end) => end.saturating_sub(now_ms) >= rq.min_time_ms,
+                    };
+                    res_ok && time_ok
+                })
+            })
+            .map(|w| w.id)
+            .collect()
+    }
+
     fn check_quiescent_progress(&mut self, sys: &System, post: &KeyParts) {
         for t in &post.core.tasks {
             match &t.state {
@@ -1871,7 +1928,10 @@ impl Monitor {
                         }
                         continue;
                     }
-                    let capable = sys.server.capable_workers(t.id);
+                    // which connected workers could run the task: recomputed here from the request
+                    // table and the workers' resources and lifetimes (not the scheduler's own
+                    // capability test, which is code under test)
+                    let capable = Self::oracle_capable_workers(sys, post, t.rq_id);
                     let runnable = if let Some(n) = sys.server.task_mn_nodes(t.id) {
                         // needs n workers of one group
                         let mut per_group: BTreeMap<&String, u32> = BTreeMap::new();
